@@ -1,3 +1,5 @@
+#[cfg(nervusdb_verif)]
+use super::verif_clock as chrono;
 use super::{
     MergeOverlayEdge, MergeOverlayNode, MergeOverlayState, NodeValue, PropertyValue,
     UNLABELED_LABEL_ID, Value, WriteableGraph, convert_api_property_to_value,
